@@ -6,12 +6,14 @@ package mcp
 // honours belongs to a session that is alive, and a session that was closed is forgotten (404).
 
 import (
+	"context"
 	"fmt"
 	"net/http"
 	"net/http/httptest"
 	"slices"
 	"strings"
 	"testing"
+	"time"
 
 	"github.com/modelcontextprotocol/go-sdk/internal/verifx"
 	vs "github.com/modelcontextprotocol/go-sdk/internal/vsched"
@@ -80,10 +82,99 @@ func c11CreateVsKick() vs.Verdict {
 	return f.verdict(fmt.Sprintf("status=%d kicked=%d alive=%d probe=%d", created.Code, kicked, alive, probe))
 }
 
+// c11PostVsTimeout: a POST for an existing session arrives at the very instant its idle timeout
+// expires.  Either the timeout wins - the POST is answered 404 and the session is gone - or the POST
+// wins - it is answered properly (200 with the complete response); nothing in between (an empty
+// 200, an error in place of the result, a hang, a table that disagrees with the server).  The instants
+// coincide, so a served POST followed at once by the timeout is a legitimate order of the two.
+func c11PostVsTimeout() vs.Verdict {
+	f := &e1Fail{prefix: "c11 post-vs-timeout"}
+	vs.Quiet(true)
+	const timeout = 10 * time.Second
+	s := NewServer(&Implementation{Name: "srv", Version: "1"}, &ServerOptions{Logger: quietLogger})
+	AddTool(s, &Tool{Name: "t"}, func(ctx context.Context, r *CallToolRequest, in map[string]any) (*CallToolResult, any, error) {
+		vs.Event("handler runs")
+		return &CallToolResult{Content: []Content{&TextContent{Text: "ok"}}}, nil, nil
+	})
+	h := NewStreamableHTTPHandler(func(*http.Request) *Server { return s }, &StreamableHTTPOptions{Logger: quietLogger, SessionTimeout: timeout, JSONResponse: true})
+	post := func(sid, body string) *httptest.ResponseRecorder {
+		r := httptest.NewRequest("POST", "http://example.test/mcp", strings.NewReader(body))
+		r.Header.Set("Content-Type", "application/json")
+		r.Header.Set("Accept", "application/json, text/event-stream")
+		if sid != "" {
+			r.Header.Set("Mcp-Session-Id", sid)
+			r.Header.Set("Mcp-Protocol-Version", "2025-06-18")
+		}
+		w := httptest.NewRecorder()
+		h.ServeHTTP(w, r)
+		return w
+	}
+	w := post("", `{"jsonrpc":"2.0","id":"i","method":"initialize","params":{"protocolVersion":"2025-06-18","capabilities":{},"clientInfo":{"name":"c","version":"1"}}}`)
+	sid := w.Header().Get("Mcp-Session-Id")
+	if w.Code != 200 || sid == "" {
+		return vs.Verdict{Bad: fmt.Sprintf("initialize failed: %d", w.Code), Sig: "c11 setup"}
+	}
+	post(sid, `{"jsonrpc":"2.0","method":"notifications/initialized","params":{}}`)
+	t0 := time.Now() // the idle clock restarted when that POST ended
+	vs.Quiet(false)
+	done := make(chan struct{})
+	var rec *httptest.ResponseRecorder
+	vs.Go(func() {
+		time.Sleep(timeout - time.Since(t0)) // exactly when the timer is due
+		vs.Event("post sent")
+		rec = post(sid, `{"jsonrpc":"2.0","id":7,"method":"tools/call","params":{"name":"t","arguments":{}}}`)
+		close(done)
+	})
+	<-done
+	vs.WaitIdle()
+	vs.Quiet(true)
+	alive := len(slices.Collect(s.Sessions()))
+	h.mu.Lock()
+	inTable := len(h.sessions)
+	h.mu.Unlock()
+	body := strings.TrimSpace(rec.Body.String())
+	if rec.Code == http.StatusOK && time.Since(t0) >= 2*timeout {
+		// quiescence was only reached after another full idle period: the session was served and
+		// has meanwhile timed out in its own right
+		if alive != 0 || inTable != 0 {
+			f.failf("timed-out-session-kept", "one more idle period after the served POST %d session(s) are alive and the table holds %d", alive, inTable)
+		}
+		vs.Quiet(false)
+		return f.verdict(fmt.Sprintf("status=%d then-timed-out", rec.Code))
+	}
+	switch {
+	case rec.Code == http.StatusNotFound:
+		if alive != 0 || inTable != 0 {
+			f.failf("timed-out-session-kept", "the POST was answered 404 (the timeout won) but %d session(s) are alive and the table holds %d", alive, inTable)
+		}
+	case rec.Code == http.StatusOK && strings.Contains(body, `"id":7`) && strings.Contains(body, `"result"`):
+		// the POST won the tie and was served in full; the timeout, due at the same instant, may
+		// still take the session afterwards - but then completely
+		if alive != inTable {
+			f.failf("table-and-server-disagree", "the POST was served (200, %s); afterwards %d session(s) are alive but the table holds %d", body, alive, inTable)
+		}
+	case rec.Code == http.StatusOK && strings.Contains(body, `"id":7`) && strings.Contains(body, `"code":-32004`) && alive == 0 && inTable == 0 && evIndex(vs.Events(), "handler runs") < 0:
+		// admitted, then refused by the closing session with an explicit "server is closing" error
+	case rec.Code == http.StatusOK && body == "" && alive == 0 && inTable == 0 && evIndex(vs.Events(), "handler runs") < 0:
+		// the timeout took the session after the POST had been admitted but before its message was
+		// dispatched: nothing was served and nothing is left; the exchange ends empty.  (The instants
+		// coincide; the property does not say which status this in-between order gets.)
+	default:
+		f.failf("post-neither-served-nor-refused", "a POST arriving as the idle timeout expires was answered %d with body %q (sessions alive: %d, in the table: %d): neither a proper response nor 404", rec.Code, body, alive, inTable)
+	}
+	for ss := range s.Sessions() {
+		ss.Close()
+	}
+	vs.WaitIdle()
+	vs.Quiet(false)
+	return f.verdict(fmt.Sprintf("status=%d alive=%d", rec.Code, alive))
+}
+
 func TestVerifC11Race(t *testing.T) {
 	env := verifx.LoadEnv("C11")
 	scs := []*verifx.Scenario{
 		vs.E1(t, "race/create-vs-close-all-sessions", env.Pick(2, 3), vs.Options{}, func() vs.Verdict { return c11CreateVsKick() }),
+		vs.E1(t, "race/post-vs-idle-timeout", env.Pick(2, 3), vs.Options{}, func() vs.Verdict { return c11PostVsTimeout() }),
 	}
 	env.Run(scs)
 }
